@@ -429,6 +429,7 @@ class SimSocket:
         self.rx.append(_EOF)
 
     def push_error(self, exc: Exception, discard: bool) -> None:
+        self.was_reset = True
         if discard:
             self.rx.clear()
         self.rx.append(exc)
@@ -496,6 +497,11 @@ class SimSocket:
 
     def shutdown(self, how: int) -> None:
         self.world.rec("sock_shutdown", fd=self._fd, how=how)
+        if self.closed:
+            raise OSError(errno.EBADF, "Bad file descriptor")
+        if getattr(self, "was_reset", False) or not self.connect_done:
+            # as on Linux: shutdown() on a socket the peer has reset / that is not connected fails with ENOTCONN
+            raise OSError(errno.ENOTCONN, "Transport endpoint is not connected")
 
     def close(self) -> None:
         if self.closed:
